@@ -140,6 +140,9 @@ def solve_minor_model(
 
     log.debug("[minor] major= {}", major_sol._solution_nice())
     model = lpinterface.model("AldyMinor", solver)
+    # Build the model in a fixed order: set iteration follows the per-process hash seed,
+    # and the variable order decides which of several equally good solutions is found
+    mutations = sorted(mutations)  # type: ignore
     debug_info = json[gene.name]["minor"][len(json[gene.name]["minor"])]
 
     # Establish minor alleles and their mutations
@@ -193,7 +196,7 @@ def solve_minor_model(
                     name=f"MUL_K_{m.pos}_{m.op}_{a[0].major}_{a[0].minor}_{a[1]}",
                 ),
             )
-            for m in alleles[a]
+            for m in sorted(alleles[a])
         }
         for a in alleles
     }
@@ -453,7 +456,7 @@ def solve_minor_model(
             o_penal += coverage.profile.minor_add * (1 + cnt / 1000000) * v[0]
             cnt += 1
     # ... and novel functional mutations from the major model...
-    for m in {m for a in VNEW for m in VNEW[a]}:
+    for m in sorted({m for a in VNEW for m in VNEW[a]}):
         vars = [
             VNEW[a][m][0]
             for a in VNEW
